@@ -98,7 +98,11 @@ def run(pid, tier):
                           dict(job=run_["job"]))
             continue
         if fm:
-            ev += fill_events(fm["avail"], fm["out"], fm["kd"], fm["pf1"], fm["T"])
+            # the threshold the hand-off must add up to is the configured one (an explicit override, else the schedule's own: 10 for
+            # the "after 10 percent fed" schedules, 100 otherwise) - not the one read back from the constants in force
+            o = run_["job"].get("options") or {}
+            tcfg = float(o.get("MINIMUM_PERCENT_FED_BEFORE_NONHUMAN_CONSUMPTION_ALLOWED", 10.0 if "after_10_percent_fed" in str(o.get("shutoff")) else 100.0))
+            ev += fill_events(fm["avail"], fm["out"], fm["kd"], fm["pf1"], tcfg)
         if rt:
             if rt["out"] is None:
                 ev.append(dict(ev="RetimeSkip", m1=nums(rt["meat1"]), m2=nums(rt["meat2"])))
